@@ -140,7 +140,7 @@ def visitLog (sel : String → String → Bool) (h : Heap) (root : Nat) : List N
 /-! ## transformations (CopyMapper family)
 
   A transformation is modelled by what it does to one node once its children
-  have been mapped: `relabel` gives the node's new non-child data.  The result
+  have been mapped: the node function `f : NodeData → NodeData`.  The result
   graph lives in the same id space as the input (`heap ++ created nodes`), so
   "returns the argument itself" is `image = old id`.
 
@@ -178,32 +178,37 @@ def mapKids (sel : String → String → Bool) (s : TState) (nd : NodeData) : Li
       | none => e
     else e
 
-/-- what the mapper method builds for node `i` from the mapped children -/
-def candidate (sel : String → String → Bool) (relabel : NodeData → String × List String)
+/-- what the mapper method builds for node `i`: the node function `f` applied to the node
+    with its followed children redirected to their results.  `f` may change the kind, the
+    tags, the attributes, and may drop children (e.g. dead-code elimination replacing a
+    `zeros`-like lambda by a literal without bindings). -/
+def candidate (sel : String → String → Bool) (f : NodeData → NodeData)
     (s : TState) (i : Nat) : NodeData :=
-  { kind := (relabel (s.heap.node i)).1, tags := (relabel (s.heap.node i)).2,
-    kids := mapKids sel s (s.heap.node i), cls := (s.heap.node i).cls,
-    attrs := (s.heap.node i).attrs }
+  f { s.heap.node i with kids := mapKids sel s (s.heap.node i) }
 
-def tstep (sel : String → String → Bool) (relabel : NodeData → String × List String)
+def tstep (sel : String → String → Bool) (f : NodeData → NodeData)
     (s : TState) (i : Nat) : TState :=
-  match s.seen.find? fun j => sameNode (s.heap.node j) (candidate sel relabel s i) with
+  match s.seen.find? fun j => sameNode (s.heap.node j) (candidate sel f s i) with
   | some j =>
     -- an equal result is already cached: the first-seen instance is reused
     { s with map := (i, j) :: s.map }
   | none =>
-    if sameNode (candidate sel relabel s i) (s.heap.node i) then
+    if sameNode (candidate sel f s i) (s.heap.node i) then
       -- `replace_if_different` returned `expr` itself
       { s with map := (i, i) :: s.map, seen := i :: s.seen }
     else
-      { heap := s.heap.push (candidate sel relabel s i),
+      { heap := s.heap.push (candidate sel f s i),
         map := (i, s.heap.size) :: s.map, seen := s.heap.size :: s.seen }
 
-def runTransform (sel : String → String → Bool) (relabel : NodeData → String × List String)
+def runTransform (sel : String → String → Bool) (f : NodeData → NodeData)
     (h : Heap) (root : Nat) : TState :=
-  (visitLog sel h root).foldl (tstep sel relabel) { heap := h, map := [], seen := [] }
+  (visitLog sel h root).foldl (tstep sel f) { heap := h, map := [], seen := [] }
 
-/-- the transformation that changes nothing -/
-def relabelId (nd : NodeData) : String × List String := (nd.kind, nd.tags)
+/-- the node function that changes nothing (CopyMapper, map_and_copy (fun x => x), deduplicate) -/
+def relabelId (nd : NodeData) : NodeData := nd
+
+/-- a node function that only rewrites kind and tags -/
+def relabelWith (g : NodeData → String × List String) (nd : NodeData) : NodeData :=
+  { nd with kind := (g nd).1, tags := (g nd).2 }
 
 end Pt
